@@ -113,6 +113,12 @@ def alphabet(N, reduced=False):
         for a in ("N", "s"):
             for st in (["auto", 0, -1] if not reduced else ["auto"]):
                 ops.append(("angax", ang, a, st))
+    # every other rotation input form (rotvec, euler, matrix, quaternion, mrp) of the same rotations
+    for form in ROTFORMS:
+        for r in (("s",) if reduced else ("s", "v2")):
+            for a in ("N", "s"):
+                for st in (["auto"] if reduced else ["auto", 0]):
+                    ops.append(("rotform", form, r, a, st))
     ops += [("pos", p) for p in PS]
     ops += [("ori", o) for o in OS]
     ops.append(("reset",))
@@ -134,6 +140,7 @@ def alphabet(N, reduced=False):
 
 
 LIVE = ("self", "first", "last")
+ROTFORMS = ("rotvec", "euler", "matrix", "quat", "mrp")
 
 
 def live_member(tree, target, who):
@@ -170,6 +177,18 @@ def apply_impl(o, op, live=None):
         o.move(D[op[1]], start=op[2])
     elif op[0] == "rot":
         o.rotate(Rot(ROT[op[1]]), anchor=AN[op[2]], start=op[3])
+    elif op[0] == "rotform":
+        r, kw = Rot(ROT[op[2]]), dict(anchor=AN[op[3]], start=op[4])
+        if op[1] == "rotvec":
+            o.rotate_from_rotvec(r.as_rotvec(), degrees=False, **kw)
+        elif op[1] == "euler":
+            o.rotate_from_euler(r.as_euler("zyx"), "zyx", degrees=False, **kw)
+        elif op[1] == "matrix":
+            o.rotate_from_matrix(r.as_matrix(), **kw)
+        elif op[1] == "quat":
+            o.rotate_from_quat(r.as_quat(), **kw)
+        else:
+            o.rotate_from_mrp(r.as_mrp(), **kw)
     elif op[0] == "angax":
         o.rotate_from_angax(ANGAX[op[1]], "z", anchor=AN[op[2]], start=op[3])
     elif op[0] == "pos":
@@ -206,6 +225,8 @@ def apply_model(m, op, live_value=None, live_ori=None):
         m.move(D[op[1]], op[2])
     elif op[0] == "rot":
         m.rotate(Rot(ROT[op[1]]).as_matrix(), AN[op[2]], op[3])
+    elif op[0] == "rotform":
+        m.rotate(Rot(ROT[op[2]]).as_matrix(), AN[op[3]], op[4])
     elif op[0] == "angax":
         ang = np.deg2rad(np.array(ANGAX[op[1]], float))
         rv = ang[..., None] * np.array((0, 0, 1.0)) if ang.ndim else ang * np.array((0, 0, 1.0))
@@ -226,10 +247,12 @@ def rel(Pc, Mc, Pd, Md):
 
 
 def opkey(op):
-    st = op[-1] if op[0] in ("move", "rot", "angax", "rotlive", "movelive", "movelivelist", "rotliveori", "rotmicro") else ""
+    st = op[-1] if op[0] in ("move", "rot", "rotform", "angax", "rotlive", "movelive", "movelivelist", "rotliveori", "rotmicro") else ""
     sc = "" if st == "" else ("auto" if st == "auto" else "neg" if st < 0 else "zero" if st == 0 else "pos")
     if op[0] == "rot":
         return f"rotate|rot={'scalar' if op[1]=='s' else 'vector'}|anchor={op[2]}|start={sc}"
+    if op[0] == "rotform":
+        return f"rotate_from_{op[1]}|rot={'scalar' if op[2]=='s' else 'vector'}|anchor={op[3]}|start={sc}"
     if op[0] == "angax":
         return f"angax|ang={'scalar' if op[1]=='s' else 'vector'}|anchor={op[2]}|start={sc}"
     if op[0] == "move":
